@@ -166,8 +166,11 @@ CLAIMED = {
              "and root, and the result is well formed (the relocation loop is handled by a display invariant). copy is mirrored and compared "
              "with the real code on every reachable tree of a bounded namespace x every ordered pair of paths x Copier options, its clauses "
              "(source untouched, independent copy at the same relative paths with kind / content / target / mode, existing entries kept, nothing "
-             "outside the destination changes, links consistent) evaluated on the implementation's pre/post snapshots. Partial: copy's "
-             "postconditions are judged on the bounded enumeration; proved for copy are no-panic and well-formedness preservation.",
+             "outside the destination changes, links consistent) evaluated on the implementation's pre/post snapshots. Proved for copy: no panic, well-formedness preservation, and that it only "
+             "ever adds (Memfs/CopyFacts.v): whatever it returns, every entry that existed - the source included - is kept under the same path "
+             "with the same kind, link target, owner and (without a chmod option) mode, directories list at least what they listed, no file "
+             "loses its content, cwd and root stay. Partial: that the destination receives a copy of every source entry is judged on the bounded "
+             "enumeration, not yet a theorem.",
         note="Trusted: Coq kernel; tools/frames.py as the executable statement of the clauses; after a copy that follows links the state is "
              "compared up to HashSet order; extraction, driver, harness, differ.",
         technique="Coq proof (validation completeness and frame) + model-guided BFS judged on pre/post snapshots",
